@@ -1,13 +1,14 @@
 #!/bin/bash
 # Apply every seeded change in a scratch worktree (never in /repo) and run the quick check of its property.
-# usage: run_all_mutants.sh [tier]   -> writes seeded/RESULTS.tsv
+# usage: run_all_mutants.sh [tier] [glob]   -> writes / updates seeded/RESULTS.tsv
 tier=${1:-quick}
+pat=${2:-C*-m*}
 wt=/tmp/wt/mutrun
 git -C /repo worktree remove --force $wt 2>/dev/null
 git -C /repo worktree add --detach $wt HEAD -q || exit 2
 out=/verif/seeded/RESULTS.tsv
 : > $out.tmp
-for d in /verif/seeded/C*-m*/; do
+for d in /verif/seeded/$pat/; do
   id=$(basename $d); prop=${id%%-*}
   git -C $wt checkout -q -- . && git -C $wt clean -fdq
   git -C $wt apply $d/patch.diff || { echo -e "$id\t$prop\tpatch-does-not-apply" >> $out.tmp; continue; }
@@ -17,6 +18,21 @@ for d in /verif/seeded/C*-m*/; do
   echo "$id $v"
 done
 git -C /repo worktree remove --force $wt
-mv $out.tmp $out
+# merge: new verdicts replace old lines of the same id
+python3 - "$out" "$out.tmp" <<'PY'
+import sys, os
+out, tmp = sys.argv[1], sys.argv[2]
+res = {}
+for f in (out, tmp):
+    if os.path.exists(f):
+        for line in open(f):
+            parts = line.rstrip('\n').split('\t')
+            if len(parts) >= 4:
+                res[parts[0]] = parts
+with open(out, 'w') as f:
+    for k in sorted(res):
+        f.write('\t'.join(res[k]) + '\n')
+os.remove(tmp)
+PY
 # leave the generated kernels of the clean tree in place
 (cd /verif && bin/check C08 quick > /dev/null 2>&1)
